@@ -28,11 +28,19 @@ TUPLE_PROPS = {"_interiorPointRadii"}  # classified by analysing the property's 
 
 
 class Q:
-    def __init__(self, kind, owners=frozenset(), why=""):
+    def __init__(self, kind, owners=frozenset(), why="", anchor=frozenset(), attained=False):
+        """anchor: the reference point(s) the quantity is measured from/between ('center', 'interior', 'point:<expr>');
+        attained: an upper bound that is the distance of an actual point of the operand (so exceeding it proves something
+        about the operand itself, not only about a hull of it)."""
         self.kind, self.owners, self.why = kind, frozenset(owners), why
+        self.anchor, self.attained = frozenset(anchor), attained
 
     def __repr__(self):
         return f"{self.kind}({','.join(sorted(self.owners))})"
+
+
+# Frozen: what each radius attribute is measured from.
+ATTR_ANCHOR = {"_circumradius": "center", "circumradius": "center", "radius": "center", "inradius": "center", "planarInradius": "center"}
 
 
 def owners_of(e, roles):
@@ -98,12 +106,12 @@ class Classifier:
             return Q("UNK")
         if isinstance(e, ast.Attribute):
             if e.attr in ATTR_KIND:
-                return Q(ATTR_KIND[e.attr][0], owners_of(e, self.roles), ATTR_KIND[e.attr][1])
+                return Q(ATTR_KIND[e.attr][0], owners_of(e, self.roles), ATTR_KIND[e.attr][1], anchor={ATTR_ANCHOR[e.attr]})
             return Q("UNK")
         if isinstance(e, ast.BinOp) and isinstance(e.op, ast.Add):
             a, b = self.scalar(e.left, depth + 1), self.scalar(e.right, depth + 1)
             if a.kind == b.kind and a.kind in ("OVER", "UNDER"):
-                return Q(a.kind, a.owners | b.owners)
+                return Q(a.kind, a.owners | b.owners, anchor=a.anchor | b.anchor)
             if {a.kind, b.kind} <= {"OVER", "UNDER"}:
                 return Q("MIXED", a.owners | b.owners, "sum of an upper and a lower bound: bounds nothing")
             return Q("UNK")
@@ -112,22 +120,51 @@ class Classifier:
             if cn in ("numpy.linalg.norm", "np.linalg.norm") and e.args:
                 a = e.args[0]
                 if lib.kw(e, "axis") is None and isinstance(a, ast.BinOp) and isinstance(a.op, ast.Sub):
-                    return Q("DIST", owners_of(a, self.roles), "norm of a difference of two reference points")
+                    return Q("DIST", owners_of(a, self.roles), "norm of a difference of two reference points", anchor={self.anchor_of(a.left), self.anchor_of(a.right)})
             if cn in ("numpy.max", "np.max", "max") and e.args:
                 a = e.args[0]
                 if isinstance(a, ast.Call) and dotted(a.func) in ("numpy.linalg.norm", "np.linalg.norm") and a.args:
                     inner = a.args[0]
                     if isinstance(inner, ast.BinOp) and isinstance(inner.op, ast.Sub) and "vertices" in unparse(inner.left):
-                        return Q("OVER", owners_of(inner.left, self.roles), "max distance of the operand's vertices from the reference point")
+                        src = unparse(inner.left)
+                        # vertices of the operand's own mesh are points of the operand; corners of its bounding box are not
+                        own = ("boundingBox" not in src and "bounding_box" not in src and "convex_hull" not in src and "Hull" not in src) and (".occupiedSpace.mesh.vertices" in src or src.endswith(".mesh.vertices"))
+                        return Q("OVER", owners_of(inner.left, self.roles), "max distance of the operand's vertices from the reference point", anchor={"point:" + self._resolved_text(inner.right)}, attained=own)
                     if "vertices" in unparse(inner):
-                        return Q("OVER", owners_of(inner, self.roles), "max vertex norm")
+                        return Q("OVER", owners_of(inner, self.roles), "max vertex norm", anchor={"center"})
             if cn == "abs" and e.args:
                 a = e.args[0]
                 if "signed_distance" in unparse(a):
                     # distance from a point to the surface the ProximityQuery was built on
                     pq = self._pq_owner(a)
-                    return Q("UNDER", pq, "distance from the reference point to the operand's surface")
+                    pt = [c.args[0] for c in ast.walk(a) if isinstance(c, ast.Call) and isinstance(c.func, ast.Attribute) and c.func.attr == "signed_distance" and c.args]
+                    return Q("UNDER", pq, "distance from the reference point to the operand's surface", anchor={self.anchor_of(pt[0])} if pt else ())
         return Q("UNK")
+
+    def _resolved_text(self, e, depth=0):
+        if isinstance(e, ast.Name) and depth < 4:
+            v = self._one(self.env, e.id)
+            if v is not None and isinstance(v, (ast.Name, ast.Attribute)):
+                return self._resolved_text(v, depth + 1)
+        return unparse(e)
+
+    def anchor_of(self, e, depth=0):
+        """'interior' / 'center' / 'point:<text>' for a reference-point expression (locals are followed)."""
+        if depth > 5:
+            return "point:?"
+        if isinstance(e, ast.Name):
+            v = self._one(self.env, e.id)
+            if v is not None:
+                return self.anchor_of(v, depth + 1)
+            return "point:" + e.id
+        if isinstance(e, (ast.List, ast.Tuple)) and len(e.elts) == 1:
+            return self.anchor_of(e.elts[0], depth + 1)
+        t = unparse(e)
+        if "_interiorPoint" in t and "Radii" not in t:
+            return "interior"
+        if isinstance(e, ast.Attribute) and e.attr in ("position", "center", "centroid", "center_mass"):
+            return "center"
+        return "point:" + t
 
     def _pq_owner(self, e):
         for n in ast.walk(e):
@@ -157,7 +194,7 @@ class Classifier:
                     else:
                         kinds.add("UNK")
             if len(kinds) == 1:
-                return Q(next(iter(kinds)), owner, f"element {i} of {v.attr}")
+                return Q(next(iter(kinds)), owner, f"element {i} of {v.attr}", anchor={"interior"} if "interiorPoint" in v.attr else ())
         return Q("UNK")
 
     # -- guards -----------------------------------------------------------
@@ -188,6 +225,14 @@ class Classifier:
             qb, qs = self.scalar(big), self.scalar(small)
             if qb.kind == "UNK" or qs.kind == "UNK":
                 return ("UNKNOWN", f"`{unparse(e)}`: cannot classify {unparse(big) if qb.kind == 'UNK' else unparse(small)}")
+            if (qb.kind == "DIST" and qs.kind == "OVER") or (qb.kind == "UNDER" and qs.kind == "DIST"):
+                d, rad = (qb, qs) if qb.kind == "DIST" else (qs, qb)
+                if len(d.anchor) != 1 or d.anchor != rad.anchor:
+                    return (
+                        "NOTHING",
+                        f"`{unparse(e)}` compares a distance between {sorted(d.anchor) or '?'} points with radii measured from {sorted(rad.anchor) or '?'}: "
+                        f"a radius bounds the operand only around the point it was computed from",
+                    )
             if qb.kind == "DIST" and qs.kind == "OVER":
                 return ("DISJOINT", f"distance > over-approximate radii {qs}")
             if qb.kind == "UNDER" and qs.kind == "DIST":
@@ -195,7 +240,11 @@ class Classifier:
             if qb.kind == "UNDER" and qs.kind == "OVER" and qb.owners == {"self"} and qs.owners == {"other"}:
                 return ("CONTAINS", "under-approximation of self > over-approximation of the other operand")
             if qb.kind == "OVER" and qs.kind == "OVER" and qb.owners == {"other"} and qs.owners == {"self"}:
-                return ("NOT_CONTAINS", "a vertex of the other operand lies beyond self's circumradius")
+                if not qb.attained:
+                    return ("NOTHING", f"`{unparse(e)}`: the larger quantity is the extent of a hull of the other operand (e.g. its bounding box), not of one of its points; exceeding self's circumradius does not show that the operand sticks out")
+                if qb.anchor != qs.anchor:
+                    return ("NOTHING", f"`{unparse(e)}`: the two extents are measured from different points ({sorted(qb.anchor)} vs {sorted(qs.anchor)})")
+                return ("NOT_CONTAINS", "a vertex of the other operand lies beyond self's circumradius around the same point")
             return ("NOTHING", f"`{unparse(e)}` compares {qb} > {qs}: proves neither disjointness nor overlap/containment")
         lab = self.bool_value(e)
         if lab:
